@@ -12,6 +12,7 @@ import (
 	"github.com/TimothyStiles/poly/transform/codon"
 	"pgregory.net/rapid"
 	"verifharness/internal/ctab"
+	"verifharness/internal/ref"
 	"verifharness/internal/vk"
 )
 
@@ -95,6 +96,20 @@ func check(c Case) error {
 	}
 	what := c.Table.String()
 	switch c.Kind {
+	case "published":
+		// "default table i" is NCBI genetic code i: the synonyms among which Optimize draws for a residue of a default
+		// table are the codons the published code assigns to that residue
+		g, ok := ref.GeneticCodeByID(c.Table.ID)
+		if !ok {
+			return vk.Harnessf("no reference for table %d", c.Table.ID)
+		}
+		for _, cd := range ref.AllCodons() {
+			if f.L[cd] != string(g.AminoAcid(cd)) {
+				return vk.Errf("default table %d lists %s among the codons of %q; genetic code %d (%s) assigns it to %q, so Optimize with default table %d draws for %q and for %q from the wrong synonyms",
+					c.Table.ID, cd, f.L[cd], c.Table.ID, g.Name, g.AminoAcid(cd), c.Table.ID, f.L[cd], g.AminoAcid(cd))
+			}
+		}
+		return nil
 	case "protein":
 		return checkBack(what, c.Protein, t, f)
 	case "generated":
@@ -431,6 +446,9 @@ func TestSub_defaults(t *testing.T) {
 	vk.RunEnum(t, subDefaults, fmt.Sprintf("25 default tables x every letter of the table: round trip of a 300-residue protein and %d pooled draws per (table, residue)", calls*2000), true, func(yield func(Case) bool) {
 		for _, id := range ctab.IDs() {
 			f, _ := ctab.Flatten(ctab.Spec{ID: id}.Build())
+			if !yield(Case{Kind: "published", Table: ctab.Spec{ID: id}}) {
+				return
+			}
 			for _, l := range f.Letters() {
 				if !yield(Case{Kind: "protein", Table: ctab.Spec{ID: id}, Protein: strings.Repeat(l, 300)}) {
 					return
